@@ -3,6 +3,7 @@ From Coq Require Import List ZArith Bool Lia Permutation.
 From RecordUpdate Require Import RecordUpdate.
 From GB Require Import Model.Allowance Model.Batcher Proofs.Tactics Proofs.C01Inv Proofs.BatcherLocal
   Proofs.BatcherLocal2 Proofs.BatcherInv2 Proofs.BatcherInv3.
+From GB Require Import Gen.Facts.
 Import ListNotations.
 Open Scope Z_scope.
 (* the Watcher's MaxOperationTime if set (> 0), otherwise the Batcher's, otherwise 1 minute *)
@@ -51,3 +52,7 @@ Theorem C11_late_return_changes_nothing : forall c s id s' o, step c s (ICbRetur
 Proof. exact cb_return_effect. Qed.
 Print Assumptions C11_late_return_changes_nothing.
 
+
+Theorem C11_source_constants :
+  V1_default_maxOperationTime = default_maxop /\ V2_default_maxOperationTime = default_maxop.
+Proof. split; reflexivity. Qed.
